@@ -463,7 +463,12 @@ func (h *hist) govParamsTxs() [][]byte {
 	ep := h.c.App.EvmKeeper.GetParams(ctx)
 	ep.ExtraEIPs = append(append([]int64{}, ep.ExtraEIPs...), 1344)
 	fp := h.c.App.FeeMarketKeeper.GetParams(ctx)
-	h.govMinGas = sdkmath.LegacyNewDec(int64(3 + h.r.Intn(5000)))
+	// the new minimum gas price has a fractional part and lies just below the base fee in force, so that the base fee
+	// decays onto its floor (the integer part) within a block or two and is exported from there
+	h.govMinGas = sdkmath.LegacyNewDecFromBigInt(new(big.Int).Div(new(big.Int).Mul(h.c.BaseFee(), big.NewInt(9)), big.NewInt(10))).Add(sdkmath.LegacyMustNewDecFromStr("0.5"))
+	if h.r.Chance(1, 4) {
+		h.govMinGas = sdkmath.LegacyNewDec(int64(3 + h.r.Intn(5000)))
+	}
 	fp.MinGasPrice = h.govMinGas
 	cp := h.c.App.CPCKeeper.GetParams(ctx)
 	cp.WhitelistedDeployers = append(append([]string{}, cp.WhitelistedDeployers...), h.holders[1].Bech32())
